@@ -17,6 +17,7 @@ verus! {
 //@include ../shim/num.rs
 //@include ../shim/strategies.rs
 //@include ../shim/iterchain.rs
+//@include ../shim/grid_types.rs
 //@include ../shim/gridbuilder.rs
 
 impl From<MinMaxError> for BinsBuildError {
@@ -233,6 +234,36 @@ where
 //@replace_text
 .collect::<Result<Vec<B>, BinsBuildError>>()
 .verif_collect_result()
+//@end
+}
+
+impl<A: Ord> From<Vec<Bins<A>>> for Grid<A> {
+//@extract file=src/histogram/grid.rs impl=From:Grid fn=from id=Grid::from_projections tags=C12
+//@sig
+    fn from(projections: Vec<Bins<A>>) -> (r: Self)
+//@spec
+        ensures r.projections == projections, // [C12]
+//@end
+}
+
+impl<A, B> GridBuilder<B>
+where
+    A: Ord,
+    B: BinsBuildingStrategy<Elem = A>,
+{
+//@extract file=src/histogram/grid.rs impl=GridBuilder fn=build id=GridBuilder::build tags=C12
+//@sig
+    pub fn build(&self) -> (r: Grid<A>)
+//@spec
+        ensures
+            // one projection per fitted strategy, in the same order, each what that strategy's own `build` produces
+            r.projections@.len() == self.bin_builders@.len(), // [C12]
+            forall|j: int| 0 <= j < self.bin_builders@.len() ==> self.bin_builders@[j].build_post(#[trigger] r.projections@[j]), // [C12]
+//@closure 0
+|b: &B| -> (o: Bins<A>) ensures b.build_post(o)
+//@replace_text
+self.bin_builders.iter()
+self.bin_builders.verif_iter()
 //@end
 }
 
